@@ -3,6 +3,7 @@ import PeptVerif.Spec.Combinatoric
 import PeptVerif.Lemmas.Combinatoric
 import PeptVerif.Lemmas.CombinatoricSpec
 import PeptVerif.Lemmas.CombinatoricParse
+import PeptVerif.Lemmas.CombinatoricExt
 /-!
 # C19 - combinatorial expansions are exactly the combinatorics of the modified residues
 
@@ -270,5 +271,108 @@ theorem wrap_globals_unchanged (a : Annotation) (sel : List (Char × List Mod)) 
 example : expandDomain exA = true := by decide
 
 example : (combinations exA (some 2)).map (·.seq) = ["PE".toList, "PT".toList, "ET".toList] := by decide
+
+/-! ## outside `canon` (round 5): empty-but-present lists, multipliers < 1, results are in normal form
+
+`canon` (and `expandDomain`) exclude annotations whose private fields hold an empty list instead of `None`, or a multiplier
+< 1. Such objects cannot be parsed from text but can be built by writing the fields. What the expansions do with them:
+* an empty-but-present labile / static / isotope / C-term / adduct list is not written, so text and results are those of
+  `dropEmpty a` - the theorems above hold with `canon (dropEmpty a)` in place of `canon a`;
+* an empty-but-present N-term or unknown-position list makes every result fail to parse (a bare `-` / `?` is written):
+  kernel-checked counter-examples, replayed on the implementation (harness stage `outside_domain`);
+* a multiplier < 1 comes back as 1 (counter-example to "own modifications unchanged", the text-level model agrees with `assemble`);
+* whatever the input, every result is in normal form (`results_lists_ok`, `wrap_wrap`). -/
+
+/-- the annotation-level results ignore empty-but-present lists -/
+theorem expansions_dropEmpty (a : Annotation) (size : Option Nat) :
+    permutations (dropEmpty a) size = permutations a size ∧ product (dropEmpty a) size = product a size ∧
+    combinations (dropEmpty a) size = combinations a size ∧
+    combinationsWithReplacement (dropEmpty a) size = combinationsWithReplacement a size := by
+  simp only [permutations, product, combinations, combinationsWithReplacement, components_dropEmpty, sizeOf_dropEmpty,
+    assemble_dropEmpty, and_self]
+
+/-- the literal text-level expansions ignore empty-but-present labile / static / isotope / C-term / adduct lists (for EVERY
+annotation: the text written is the same) -/
+theorem expansionsText_dropEmpty (a : Annotation) (size : Option Nat) :
+    permutationsText (dropEmpty a) size = permutationsText a size ∧ productText (dropEmpty a) size = productText a size ∧
+    combinationsText (dropEmpty a) size = combinationsText a size ∧
+    combinationsWithReplacementText (dropEmpty a) size = combinationsWithReplacementText a size := by
+  simp only [permutationsText, productText, combinationsText, combinationsWithReplacementText, pieces_dropEmpty,
+    sizeOf_dropEmpty, reparse_dropEmpty, and_self]
+
+/-- `permutationsText_eq` ... `combinationsWithReplacementText_eq` with the weaker hypothesis `canon (dropEmpty a)`: the
+literal text-level model returns exactly the annotation-level results also when some of the five lists are empty-but-present -/
+theorem expansionsText_eq_ext (a : Annotation) (hc : canon (dropEmpty a) = true) (size : Option Nat) (hk : 1 ≤ sizeOf a size) :
+    permutationsText a size = (permutations a size).map (fun r => .ok (.single r)) ∧
+    productText a size = (product a size).map (fun r => .ok (.single r)) ∧
+    combinationsText a size = (combinations a size).map (fun r => .ok (.single r)) ∧
+    combinationsWithReplacementText a size = (combinationsWithReplacement a size).map (fun r => .ok (.single r)) := by
+  obtain ⟨t1, t2, t3, t4⟩ := expansionsText_dropEmpty a size
+  obtain ⟨e1, e2, e3, e4⟩ := expansions_dropEmpty a size
+  have hk' : 1 ≤ sizeOf (dropEmpty a) size := hk
+  rw [← t1, ← t2, ← t3, ← t4, ← e1, ← e2, ← e3, ← e4]
+  exact ⟨permutationsText_eq _ hc size hk', productText_eq _ hc size hk', combinationsText_eq _ hc size hk',
+    combinationsWithReplacementText_eq _ hc size hk'⟩
+
+/-- every result parses, also from an annotation with empty-but-present labile / static / isotope / C-term / adduct lists -/
+theorem results_parse_ext (plus : Plus) (a : Annotation) (hc : canon (dropEmpty a) = true) (size : Option Nat)
+    (hk : 1 ≤ sizeOf a size) (r : Annotation)
+    (hr : r ∈ permutations a size ∨ r ∈ product a size ∨ r ∈ combinations a size ∨ r ∈ combinationsWithReplacement a size) :
+    parse true (serialize plus r) = .ok (.single r) := by
+  obtain ⟨e1, e2, e3, e4⟩ := expansions_dropEmpty a size
+  rw [← e1, ← e2, ← e3, ← e4] at hr
+  exact results_parse plus (dropEmpty a) hc size hk r hr
+
+/-- not canonical (three empty-but-present lists), but covered by the `_ext` theorems -/
+def exEmpty : Annotation := { exA with labile := some [], cterm := some [], adducts := some [] }
+
+example : canon exEmpty = false ∧ expandDomain exEmpty = false ∧ canon (dropEmpty exEmpty) = true ∧
+    1 ≤ sizeOf exEmpty (some 2) := by decide +kernel
+
+/-- for EVERY annotation (no hypothesis) the list fields of every result are `None` or non-empty with multipliers ≥ 1 -/
+theorem results_lists_ok (a : Annotation) (sel : List (Char × List Mod)) :
+    okList (wrap a sel).labile = true ∧ okList (wrap a sel).static = true ∧ okList (wrap a sel).isotope = true ∧
+    okList (wrap a sel).unknown = true ∧ okList (wrap a sel).nterm = true ∧ okList (wrap a sel).cterm = true ∧
+    okList (wrap a sel).adducts = true := by
+  simp only [wrap, okList_normList, and_self]
+
+/-- the normal form is reached after one round: wrapping a selection in the globals of a result is wrapping it in the
+globals of the original input (for EVERY annotation) -/
+theorem wrap_wrap (a : Annotation) (sel sel' : List (Char × List Mod)) : wrap (wrap a sel) sel' = wrap a sel' := by
+  simp only [wrap, normList_idem]
+
+example : wrap exEmpty (residues exEmpty) ≠ exEmpty ∧
+    wrap (wrap exEmpty (residues exEmpty)) [('T', [])] = wrap exEmpty [('T', [])] := by decide
+
+/-- an empty-but-present N-term list -/
+def exEmptyNterm : Annotation := { seq := "PET".toList, internal := some [(1, [⟨.int 3, 1⟩])], nterm := some [] }
+
+/-- an empty-but-present unknown-position list -/
+def exEmptyUnknown : Annotation := { seq := "PET".toList, internal := some [(1, [⟨.int 3, 1⟩])], unknown := some [] }
+
+/-- COUNTER-EXAMPLE to "every result parses" outside `canon`: with an empty-but-present N-term list the text starts with a
+bare `-` and `parse` raises (the annotation-level `assemble` would give 6 results) -/
+theorem empty_nterm_does_not_parse :
+    serializeStart (constPlus false) exEmptyNterm = ['-'] ∧
+    collect (permutationsText exEmptyNterm (some 2)) = .error .format ∧ (permutations exEmptyNterm (some 2)).length = 6 := by
+  decide +kernel
+
+/-- the same for an empty-but-present unknown-position list (a bare `?`) -/
+theorem empty_unknown_does_not_parse :
+    serializeStart (constPlus false) exEmptyUnknown = ['?'] ∧
+    collect (combinationsText exEmptyUnknown (some 2)) = .error .format ∧ (combinations exEmptyUnknown (some 2)).length = 3 := by
+  decide +kernel
+
+/-- multipliers 0 and -2 (outside `canon` and `expandDomain`) -/
+def exMult : Annotation :=
+  { seq := "PET".toList, internal := some [(1, [⟨.int 3, 0⟩]), (2, [⟨.str "Phospho".toList, -2⟩])], charge := some 2 }
+
+/-- COUNTER-EXAMPLE to "residues taken together with their own modifications" outside the domain: a multiplier < 1 is not
+written and comes back as 1; the literal text-level model and `assemble` agree on it -/
+theorem mult_below_one_normalised :
+    modsAt exMult 1 = [⟨.int 3, 0⟩] ∧ modsAt (wrap exMult (residues exMult)) 1 = [⟨.int 3, 1⟩] ∧
+    canon exMult = false ∧
+    combinationsText exMult (some 2) = (combinations exMult (some 2)).map (fun r => .ok (.single r)) := by
+  decide +kernel
 
 end Pept.C19
